@@ -23,27 +23,64 @@ def _real_batch(batch):
 
 
 def real_deps(ctx: Ctx, items):
-    """items: [(text, full_js, context_key)] -> list of sorted deps or 'EXC:Name' (hang = 'EXC:timeout')"""
+    """items: [(text, full_js, context_key)] -> list of sorted deps or 'EXC:Name'.
+    A time-out is never a result: batches that the pool did not finish (watchdog under load, lost worker) are run again
+    after the pool has drained, item by item, alone and sequentially, with a much larger bound; an item that does not
+    return even then ends the check inconclusive (exit 2), it is not compared as a value."""
     from sfv.rt.cwldiff import enable_bytecode_cache
 
+    if not items:
+        return []
     enable_bytecode_cache()
     import streamflow.cwl.utils  # noqa: F401  (imported once here, inherited by the forked workers)
     size = 20
     batches = [items[i:i + size] for i in range(0, len(items), size)]
     res = [None] * len(batches)
     index = {id(b): i for i, b in enumerate(batches)}
-    for b, status, r in pmap(_real_batch, batches, timeout=300):
+    for b, status, r in pmap(_real_batch, batches, timeout=600):
         i = index[id(b)]
         if status == "ok":
             res[i] = r
-        elif status == "timeout":
-            res[i] = ["EXC:timeout"] * len(b)
-        else:
+        elif status != "timeout":
             raise Inconclusive(f"worker failed: {r[:300]}")
-    for i, b in enumerate(batches):
-        if res[i] is None:  # never reported (lost worker): run it here
-            res[i] = _real_batch(b)
+    redo = [i for i in range(len(batches)) if res[i] is None]      # timed out in the pool, or never reported
+    if redo:
+        ctx.count("batches-rerun-alone", len(redo))
+    for i in redo:
+        out = []
+        for item in batches[i]:
+            bound = min(1200.0, ctx.time_left())
+            if bound < 30:
+                raise Inconclusive(f"resolve_dependencies timed out in the pool on a batch containing {item[0]!r} and the budget "
+                                   "has no room to re-run it alone")
+            got = None
+            for _, status, r in pmap(_real_batch, [[item]], timeout=bound, workers=1):
+                if status == "ok":
+                    got = r[0]
+                elif status == "timeout":
+                    raise Inconclusive(f"resolve_dependencies did not return within {int(bound)} s on {item[0]!r} even when run alone "
+                                       "(a time-out is not a verdict)")
+                else:
+                    raise Inconclusive(f"worker failed: {str(r)[:300]}")
+            if got is None:                                         # not reported by the pool: run it here
+                got = _real_batch([item])[0]
+            out.append(got)
+        res[i] = out
     return [x for r in res for x in r]
+
+
+def node_reads(ctx: Ctx, codes):
+    """node oracle; a time-out under load is retried once alone with a larger bound, then the check is inconclusive"""
+    import subprocess
+
+    try:
+        return J.node_reads(codes, timeout=300)
+    except subprocess.TimeoutExpired:
+        ctx.count("node-rerun")
+        try:
+            return J.node_reads(codes, timeout=max(60.0, min(1500.0, ctx.time_left())))
+        except subprocess.TimeoutExpired as e:
+            raise Inconclusive("the node oracle did not finish (a time-out is not a verdict)") from e
 
 
 def _dec(field: str):
@@ -92,7 +129,7 @@ class C31(Property):
     quick_budget_s = 400
     thorough_budget_s = 1800
     min_nontrivial = 50
-    rule = ("JavaScript fragments are compositions of 20 handled and 12 defect access patterns (dot / quoted-bracket / computed "
+    rule = ("JavaScript fragments are compositions of 22 handled and 13 defect access patterns (incl. counted `for` loops) (dot / quoted-bracket / computed "
             "access, aliasing by assignment / var initialiser / parenthesis / conditional / argument / return, nested function "
             "declarations and expressions, parameter shadowing, kills, conditionals, string literals mentioning inputs, reserved "
             "words), pretty-printed with random whitespace and quote style; every pattern alone first (corpus), then random "
@@ -110,7 +147,8 @@ class C31(Property):
     ]
     assumptions = [
         "the theorems are about the generated fragment (literals, identifiers, var, assignment, member/index access, +, ?:, calls, "
-        "function declarations/expressions, return, if); other JavaScript (loops, object literals, try, this, arguments, "
+        "function declarations/expressions, return, if, counted for-loops); other JavaScript (while / for-in loops, object literals, try, this, "
+        "arguments, "
         "Object.keys, JSON.stringify of inputs) is outside the model",
         "reads of an all-digit key on inputs (inputs[0]) are not counted as reads of a field",
     ]
@@ -126,9 +164,11 @@ class C31(Property):
                   "cases inside the proved fragment is reported in the evidence")
 
     # ------------------------------------------------------------------------------------------
-    def _programs(self, ctx: Ctx):
+    def _programs(self, ctx: Ctx, n: int, first: bool):
         rng = ctx.rng
         progs = []
+        if not first:
+            return [("random", J.gen_program(rng, allow_defects=(i % 5 < 2))) for i in range(n)]
         # corpus: every pattern alone, twice (different keys / layouts), plus hand-written boundary shapes
         for nm in J.HANDLED + list(J.DEFECTS):
             for _ in range(2):
@@ -146,18 +186,38 @@ class C31(Property):
         ]
         for kind, body, pats, order in hand:
             progs.append(("corpus", {"kind": kind, "body": body, "patterns": pats, "order": order}))
-        n = {"quick": 150, "thorough": 3000}[ctx.tier]
-        if ctx.mode == "search":
-            n *= 2
         for i in range(n):
             progs.append(("random", J.gen_program(rng, allow_defects=(i % 5 < 2))))
         return progs
 
     def explore(self, ctx: Ctx) -> None:
-        rng = ctx.rng
         from cwl_utils.sandboxjs import param_re
 
-        progs = self._programs(ctx)
+        # the plan is a sequence of rounds (programs, parameter references, interpolated strings); the first one carries the
+        # corpus; thorough adds rounds only while less than 70 % of the budget is used (adaptive plan, recorded in the evidence)
+        m = 2 if ctx.mode == "search" else 1
+        plan = [(150 * m, 120, 50 * m)] if ctx.tier == "quick" else [(300 * m, 200, 60 * m)] * 10
+        budget = self.quick_budget_s if ctx.tier == "quick" else self.thorough_budget_s
+        acc = {"progs": 0, "handled": 0, "handled_ok": 0, "node_ok": 0}
+        done = 0
+        for k, (n, npref, nint) in enumerate(plan):
+            if k > 0 and ctx.time_left() < 0.3 * budget:
+                ctx.notes.append(f"adaptive plan: {len(plan) - k} of {len(plan)} rounds not run (70% of the budget used)")
+                break
+            self._round(ctx, param_re, acc, n, npref, nint, first=(k == 0))
+            done += 1
+        ctx.extra["rounds_planned"] = len(plan)
+        ctx.extra["rounds_run"] = done
+        ctx.extra["js_fragments"] = acc["progs"]
+        ctx.extra["in_proved_fragment"] = acc["handled"]
+        ctx.extra["in_proved_fragment_and_evaluated"] = acc["handled_ok"]
+        ctx.extra["node_evaluated_ok"] = acc["node_ok"]
+        if len(ctx.nontrivial) and acc["handled"] < 0.2 * acc["progs"]:
+            ctx.notes.append("fewer than 20% of the generated fragments are inside the proved fragment")
+
+    def _round(self, ctx: Ctx, param_re, acc: dict, n: int, npref: int, nint: int, first: bool) -> None:
+        rng = ctx.rng
+        progs = self._programs(ctx, n, first)
         texts, lines, routed = [], [], []
         for origin, p in progs:
             t = J.expression_text(p["kind"], p["body"], rng)
@@ -166,14 +226,14 @@ class C31(Property):
             routed.append(p["kind"] == "paren" and param_re.match(t[1:]) is not None)
         # parameter references
         prefs = []
-        npref = {"quick": 120, "thorough": 2000}[ctx.tier]
         fixed = ["$(inputs.a.b)", "$(inputs['a'])", '$(inputs["a b"])', "$(inputs.a.length)", "$(inputs.length)", "$(inputs)",
                  "$(self.a)", "$(inputs[3])", "$(inputs.if)", "$(runtime.cores)"]
         fixed_meta = [("inputs", [("d", "a"), ("d", "b")]), ("inputs", [("k", "a")]), ("inputs", [("k", "a b")]),
                       ("inputs", [("d", "a"), ("d", "length")]), ("inputs", [("d", "length")]), ("inputs", []),
                       ("self", [("d", "a")]), ("inputs", [("x", 3)]), ("inputs", [("d", "if")]), ("runtime", [("d", "cores")])]
-        for t, (sym, segs) in zip(fixed, fixed_meta):
-            prefs.append((t, sym, segs))
+        if first:
+            for t, (sym, segs) in zip(fixed, fixed_meta):
+                prefs.append((t, sym, segs))
         for _ in range(npref):
             prefs.append(J.gen_paramref(rng))
         pref_items, pref_lines = [], []
@@ -185,7 +245,7 @@ class C31(Property):
         # ---- run everything ----
         real = real_deps(ctx, [(t, True, None) for t in texts] + pref_items)
         real_js, real_pref = real[:len(texts)], real[len(texts):]
-        node = J.node_reads([t[1:] for t in texts] + [t[1:] for t, _, _ in prefs], timeout=300)
+        node = node_reads(ctx, [t[1:] for t in texts] + [t[1:] for t, _, _ in prefs])
         node_js, node_pref = node[:len(texts)], node[len(texts):]
         model = ctx.lean("Drivers/C31.lean", lines + pref_lines, timeout=900)
         model_js, model_pref = model[:len(lines)], model[len(lines):]
@@ -206,9 +266,6 @@ class C31(Property):
                     ctx.disagree("listener model vs resolve_dependencies", f"{t!r}: code {r}, Lean listener {mlist}", case)
             else:
                 ctx.count("routed-to-regex_eval")
-            if r == "EXC:timeout":
-                ctx.fail("hang", f"resolve_dependencies did not return on {t!r}", case)
-                continue
             # (ii) model evaluator vs node
             if nd["ok"]:
                 n_node_ok += 1
@@ -228,21 +285,21 @@ class C31(Property):
                     ctx.disagree("model contradicts deps_sound_partial", f"{t!r}: handled, deps {mlist}, reads {mreads}", case)
             else:
                 ctx.count("node-evaluation-failed")
-        ctx.extra["js_fragments"] = len(progs)
-        ctx.extra["in_proved_fragment"] = n_handled
-        ctx.extra["in_proved_fragment_and_evaluated"] = n_handled_ok
-        ctx.extra["node_evaluated_ok"] = n_node_ok
+        acc["progs"] += len(progs)
+        acc["handled"] += n_handled
+        acc["handled_ok"] += n_handled_ok
+        acc["node_ok"] += n_node_ok
         # ---- witnesses outside the modelled syntax tree (real code and node only) ----
-        extra = [("${var x; var y; x = y = inputs; return y.b;}", "miss:chained-assignment")]
+        extra = [("${var x; var y; x = y = inputs; return y.b;}", "miss:chained-assignment")] if first else []
         ex_real = real_deps(ctx, [(t, True, None) for t, _ in extra])
-        ex_node = J.node_reads([t[1:] for t, _ in extra])
+        ex_node = node_reads(ctx, [t[1:] for t, _ in extra])
         for (t, key), r, nd in zip(extra, ex_real, ex_node):
             ctx.case({"expr": t, "real": r, "node": nd.get("reads")}, ("extra", t), "extra-model")
             if nd["ok"] and (isinstance(r, str) or [k for k in nd["reads"] if k not in r]):
                 ctx.fail(key, f"{t!r}: node reads {nd['reads']}, resolve_dependencies gives {r}",
                          {"op": "extra", "text": t, "key": key})
         # ---- interpolated strings: several placeholders share one resolver ----
-        self._interpolated(ctx, param_re)
+        self._interpolated(ctx, param_re, nint, first)
         # ---- parameter references ----
         j = 0
         for i, (t, sym, segs) in enumerate(prefs):
@@ -264,14 +321,11 @@ class C31(Property):
                             missed = [k for k in nd["reads"] if k not in r and not k.isdigit()]
                             if missed:
                                 ctx.fail("paramref-miss", f"{t!r}: fields {missed} read, deps {r}", case)
-        if len(ctx.nontrivial) and n_handled < 0.2 * len(progs):
-            ctx.notes.append("fewer than 20% of the generated fragments are inside the proved fragment")
 
-    def _interpolated(self, ctx: Ctx, param_re) -> None:
+    def _interpolated(self, ctx: Ctx, param_re, n: int, first: bool) -> None:
         rng = ctx.rng
         items = [J.gen_interpolated(rng, False, shape) for shape in (["ref", "js"], ["js", "ref"], ["js", "js"], ["ref", "js", "ref"],
-                                                                     ["js", "ref", "js"], ["ref", "ref", "js"])]
-        n = {"quick": 50, "thorough": 600}[ctx.tier] * (2 if ctx.mode == "search" else 1)
+                                                                     ["js", "ref", "js"], ["ref", "ref", "js"])] if first else []
         items += [J.gen_interpolated(rng, i % 4 == 0) for i in range(n)]
         real = real_deps(ctx, [(it["text"], True, None) for it in items])
         codes, spans = [], []
@@ -279,7 +333,7 @@ class C31(Property):
             cs = J.interp_codes(it["parts"])
             spans.append((len(codes), len(codes) + len(cs)))
             codes += cs
-        node = J.node_reads(codes, timeout=300)
+        node = node_reads(ctx, codes)
         model = ctx.lean("Drivers/C31.lean", [J.interp_line("inputs", it["parts"]) for it in items], timeout=900)
         for it, r, (a, b), ml in zip(items, real, spans, model):
             mlist, mreads, handled = parse_model(ml)
